@@ -83,6 +83,13 @@ fn a2l_text(carrier: usize, dt: &str, conv: &Conv, lo: f64, hi: f64) -> String {
         0 => format!("/begin MEASUREMENT x \"\" {dt} {cmref} 0 0 {l} {h} /end MEASUREMENT"),
         1 => format!("{rl}\n/begin CHARACTERISTIC x \"\" VALUE 0x0 rl 0 {cmref} {l} {h} /end CHARACTERISTIC"),
         2 => format!("{rl}\n/begin AXIS_PTS x \"\" 0x0 NO_INPUT_QUANTITY rl 0 {cmref} 5 {l} {h} /end AXIS_PTS"),
+        // the STD_AXIS is the only axis of a CURVE, or (every second limit pair) the second axis of a MAP behind a
+        // FIX_AXIS: its axis points then are AXIS_PTS_Y, whose data type differs from that of AXIS_PTS_X
+        3 if (lo.to_bits() ^ hi.to_bits()) & 1 == 1 => {
+            let other = if dt == "UBYTE" { "SWORD" } else { "UBYTE" };
+            format!("/begin RECORD_LAYOUT rl FNC_VALUES 1 {dt} COLUMN_DIR DIRECT AXIS_PTS_X 2 {other} INDEX_INCR DIRECT AXIS_PTS_Y 3 {dt} INDEX_INCR DIRECT /end RECORD_LAYOUT\n/begin CHARACTERISTIC x \"\" MAP 0x0 rl 0 NO_COMPU_METHOD {} {} /begin AXIS_DESCR FIX_AXIS NO_INPUT_QUANTITY NO_COMPU_METHOD 5 {} {} FIX_AXIS_PAR_DIST 0 1 5 /end AXIS_DESCR /begin AXIS_DESCR STD_AXIS NO_INPUT_QUANTITY {cmref} 5 {l} {h} /end AXIS_DESCR /end CHARACTERISTIC",
+                     fnum(f64::MIN), fnum(f64::MIN), fnum(f64::MIN), fnum(f64::MIN))
+        }
         3 => format!("{rl}\n/begin CHARACTERISTIC x \"\" CURVE 0x0 rl 0 NO_COMPU_METHOD {} {} /begin AXIS_DESCR STD_AXIS NO_INPUT_QUANTITY {cmref} 5 {l} {h} /end AXIS_DESCR /end CHARACTERISTIC",
                      fnum(f64::MIN), fnum(f64::MIN)),
         _ => format!("/begin TYPEDEF_MEASUREMENT x \"\" {dt} {cmref} 0 0 {l} {h} /end TYPEDEF_MEASUREMENT"),
